@@ -10,12 +10,12 @@ CONDS = [
          'for every element: membership in one select() over the document == match() on that element alone; '
          'compact forms document (13 elements) with symbolic <html lang>, <meta content>, radio name, submit type',
          '27 memoising / HTML-only selectors; len(lang), len(meta) <= 2, len(name), len(type suffix) <= 1, all of Unicode; '
-         '5 presence Booleans', timeout={'quick': 110, 'thorough': 1800}, parts={'quick': 9, 'thorough': 14}),
+         '5 presence Booleans', timeout={'quick': 110, 'thorough': 900}, parts={'quick': 9, 'thorough': 14}),
     Cond('history_ok',
          'after any 3-call history (7 entry-point forms x 20 selectors each) the observed selector answers as on a '
          'pristine copy (select and match, either order); decode(), attrs and node identities unchanged',
          '5 documents (forms via html.parser/html5lib, plain, XHTML, XML) x 27 observed selectors x 140^3 histories '
-         '(one scrambled symbolic index; 250 / 6000 histories per part)', timeout={'quick': 100, 'thorough': 1800},
+         '(one scrambled symbolic index; 250 / 6000 histories per part)', timeout={'quick': 100, 'thorough': 900},
          parts={'quick': 4, 'thorough': 14}),
     Cond('state_restored_ok',
          'CSSMatch.namespaces / iframe_restrict are restored whenever match() returns (probe subclass of the real matcher)',
